@@ -30,7 +30,10 @@ LEAN_MODULES = ["LunaVerif.Props.C20", "LunaVerif.Lemmas.C20CycAbs", "LunaVerif.
                 "LunaVerif.Lemmas.C20CycRefine", "LunaVerif.Lemmas.C20CycMain", "LunaVerif.Lemmas.C20CycEvent",
                 # envOk discharged: slot contract, contract => envOk, endpoint models keep it, closed device
                 "LunaVerif.Lemmas.C20Contract", "LunaVerif.Lemmas.C20EnvOk", "LunaVerif.Lemmas.C20Endpoints",
-                "LunaVerif.Lemmas.C20Device", "LunaVerif.Lemmas.C20Control"]
+                "LunaVerif.Lemmas.C20Device", "LunaVerif.Lemmas.C20Control",
+                # the control endpoint keeps the slot contract (assume/guarantee, over C07's closed loop sys2Step)
+                "LunaVerif.Lemmas.C20CtrlBase", "LunaVerif.Lemmas.C20CtrlDefs", "LunaVerif.Lemmas.C20CtrlBlk",
+                "LunaVerif.Lemmas.C20CtrlContract", "LunaVerif.Lemmas.C20CtrlExamples"]
 DRIVER = "Driver/C20.lean"
 REQUIRED_THEOREMS = ["mux_single_source", "generator_idle_unless_stream_valid", "handshake_idle_unless_requested",
                      "every_response_is_handshake_or_crc_valid_data", "response_only_after_addressed_token_or_data",
@@ -45,7 +48,9 @@ REQUIRED_THEOREMS = ["mux_single_source", "generator_idle_unless_stream_valid", 
                      "good_step", "envOk_of_endpoints", "closed_tx_never_during_rx", "closed_transmitters_exclusive",
                      "closed_tx_only_in_response_window",
                      # control endpoint (C07 cycle model), one-cycle lemmas
-                     "ctrl_requests_only_after_pulse", "ctrl_no_handshake_and_data_together"]
+                     "ctrl_requests_only_after_pulse", "ctrl_no_handshake_and_data_together",
+                     # control endpoint + handlers + serializer + block descriptor handler keep the slot contract
+                     "ctl_step", "ctrl_keeps_contract", "ctrl_keeps_contract_run"]
 RULE = ("cases = 'mux' (number of inputs x random valid/data patterns, one-hot and overlapping) and 'full' (descriptor set, "
         "endpoint set {bulk IN, bulk OUT, status}, extra handlers) x adaptive LegalHost script (control transfers, bulk IN "
         "with lost/corrupted handshakes and retries, bulk OUT with retransmissions / overflow / PING, status polls, "
@@ -85,12 +90,21 @@ PARTIAL = ("Proved: the transaction-level theorems for every state and event of 
            "in the cycle after a reception) and the reset sequencer is assumed silent; this assumption is EVALUATED by the Lean "
            "driver on the real control endpoint's EndpointInterface outputs in every co-simulated cycle (slot contract columns "
            "of the 'cyc' cases, expected 1; the same columns re-check the three proved endpoints on the real gateware and tie "
-           "the pulse decode of Lemmas/C20Device.lean to it), not proved: its cycle model C07 abstracts the setup decoder, "
-           "descriptor handler and serializer as inputs (ctrl_requests_only_after_pulse / ctrl_no_handshake_and_data_together "
-           "cover the control FSM + request handlers for one cycle: every request is caused by a pulse for the endpoint in that "
-           "cycle or passed through from one of the three submodules), so the contract would need those three models composed "
-           "in; the control endpoint also does NOT keep the contract for arbitrary inputs - a new SETUP in mid-transmission "
-           "cuts its stream - so its proof needs the packet layer's 'no reception while answering' fed back; the closed-loop "
+           "the pulse decode of Lemmas/C20Device.lean to it). PROVED towards it (ctrl_keeps_contract, Lemmas/C20Ctrl*.lean): the "
+           "closed loop of C07 (USBControlEndpoint + handler multiplexer + StandardRequestHandler + its StreamSerializer + "
+           "GetDescriptorHandlerBlock, sys2Step) keeps the slot contract from reset for EVERY input history in assume/guarantee "
+           "form - in every cycle up to and including the first one in which the environment breaks ctlEnv: a pulse for the "
+           "endpoint is a pulse of the slot; setup_decoder.ack only at a slot pulse while the tokenizer shows SETUP, "
+           "packet.received only while it shows SETUP, PID decode exclusive; while the slot is armed or sending no pulse, no "
+           "received, no forwarded host ACK, setup.type unchanged; start_position fits position_in_stream when the descriptor "
+           "handler leaves IDLE (both of the last two are shown necessary by kernel-evaluated runs: a SETUP in mid-stream cuts "
+           "tx.valid; a host that keeps asking after the short packet makes the block handler present data without first). "
+           "STILL MISSING for restHolds: (i) the setup decoder is an input of that loop (received, ack, SetupPacket "
+           "registers) - its composition with the shared tokenizer/timer/CRC (decoder ACK = receiver's ready_for_response, "
+           "timer.start = new_packet one cycle after a reception, registers stable outside a SETUP reception) is not proved; "
+           "(ii) ctlEnv is not yet derived from hostOk + the packet-layer invariant inside the closed device (the loop is not "
+           "wired into Lemmas/C20Device.lean as the rest slot; the handshake detector that produces handshakes_in.ack is not "
+           "part of DevCyc); the closed-loop "
            "WIRING of the endpoint models (Lemmas/C20Device.lean, read off stream.py/status.py/endpoint.py) is not itself "
            "co-simulated as a whole - each "
            "endpoint model and the packet layer are, separately; (b) the refinement from cycles to events beyond the "
